@@ -123,6 +123,19 @@ def families():
         ("box", 10, lambda: geom.box(0, 0, 10, 10.5, "EPSG:4326")),
         ("poly-eps1", 11, lambda: geom.polygon([(x + (1e-9 if i == 1 else 0), y) for i, (x, y) in enumerate(poly)], "EPSG:4326")),
         ("poly-eps2", 12, lambda: geom.polygon([(x + (2e-9 if i == 1 else 0), y) for i, (x, y) in enumerate(poly)], "EPSG:4326")),
+        # geometry types no helper constructor produces: rings (from .exterior / .interiors), multi-part, collections, empty
+        ("ring", 13, lambda: geom.polygon(poly, "EPSG:4326").exterior),
+        ("ring-again", 13, lambda: geom.polygon(list(poly), "epsg:4326").exterior),
+        ("ring-interior", 14, lambda: geom.polygon(poly, "EPSG:4326", [(2, 2), (2, 3), (3, 3), (2, 2)]).interiors[0]),
+        ("ring-nocrs", 15, lambda: geom.polygon(poly, None).exterior),
+        ("ring-geobox", 16, lambda: GeoBox((4, 5), A0, "EPSG:32633").extent.exterior),
+        ("line-closed-as-ring-geobox", 17, lambda: geom.line(list(GeoBox((4, 5), A0, "EPSG:32633").extent.exterior.coords), "EPSG:32633")),
+        ("multipolygon-1", 18, lambda: geom.multipolygon([[poly]], "EPSG:4326")),
+        ("multipolygon-2", 19, lambda: geom.multipolygon([[poly], [[(20, 20), (20, 21), (21, 21), (20, 20)]]], "EPSG:4326")),
+        ("multiline-1", 20, lambda: geom.multiline([poly], "EPSG:4326")),
+        ("collection", 21, lambda: geom.multigeom([geom.point(0, 10, "EPSG:4326"), geom.point(1, 10, "EPSG:4326")]) | geom.line(poly[:2], "EPSG:4326")),
+        ("empty-polygon", 22, lambda: geom.polygon(poly, "EPSG:4326") - geom.polygon(poly, "EPSG:4326")),
+        ("empty-point-like", 23, lambda: geom.point(0, 10, "EPSG:4326") & geom.point(5, 5, "EPSG:4326")),
     ]
     BB = geom.BoundingBox
     F["BoundingBox"] = [
@@ -231,6 +244,17 @@ def families():
         ("gt-tile4x32", 13, lambda: GeoboxTiles(gb(), (4, 32))),
         ("gt-eps1", 8, lambda: GeoboxTiles(GeoBox((10, 10), Affine(10.0, 0.0, 500000.0 + 4e-6, 0.0, -10.0, 6000000.0), "EPSG:32633"), (4, 4))),
         ("gt-eps2", 9, lambda: GeoboxTiles(GeoBox((10, 10), Affine(10.0, 0.0, 500000.0 + 8e-6, 0.0, -10.0, 6000000.0), "EPSG:32633"), (4, 4))),
+        # irregular chunkings with the same tile count, same first tile and same total
+        ("gt-var3", 14, lambda: GeoboxTiles(gb(), ((4, 3, 3), (4, 4, 2)))),
+        ("gt-var4", 15, lambda: GeoboxTiles(gb(), ((4, 4, 2), (4, 2, 4)))),
+        # tiled GCP GeoBoxes: same shape and tiling, other window / other control points / other CRS
+        ("gt-gcp", 16, lambda: GeoboxTiles(GCPGeoBox((11, 11), m_shared), (4, 4))),
+        ("gt-gcp-again", 16, lambda: GeoboxTiles(GCPGeoBox((11, 11), _gcp_mapping()), (4, 4))),
+        ("gt-gcp-window", 17, lambda: GeoboxTiles(GCPGeoBox((11, 12), m_shared)[:, 1:], (4, 4))),
+        ("gt-gcp-mapping", 18, lambda: GeoboxTiles(GCPGeoBox((11, 11), _gcp_mapping(1)), (4, 4))),
+        ("gt-gcp-crs", 19, lambda: GeoboxTiles(GCPGeoBox((11, 11), _gcp_mapping(0, "EPSG:4283")), (4, 4))),
+        ("gt-gcp-var", 20, lambda: GeoboxTiles(GCPGeoBox((11, 11), m_shared), ((4, 4, 3), (4, 4, 3)))),
+        ("gt-gcp-var2", 21, lambda: GeoboxTiles(GCPGeoBox((11, 11), m_shared), ((4, 3, 4), (4, 4, 3)))),
     ]
     F["XY"] = [
         ("xy12", 1, lambda: xy_(1, 2)),
